@@ -1,4 +1,4 @@
-import MuscleModel.Conc.ProofsTP2
+import MuscleModel.Conc.ProofsTP7
 
 /-!
 # C19 — A thread pool handles each client's Messages once, in order, one at a time
@@ -117,46 +117,112 @@ example : ∃ c, Reachable 1 [0] [[.sub 0 1, .unreg 0]] c ∧ (c.uth 0).pc = .un
   ⟨(machine.runSched (Cfg.init 1 [0] [[.sub 0 1, .unreg 0]]) [.run 0, .run 0, .run 1, .run 0, .run 0, .run 1, .run 1, .run 0]).1,
    machine.reach_runSched Machine.Reach.init _, by decide, by decide⟩
 
-/-- **Shutdown terminates** — as far as proved: `shutdown_example` shows a complete run (handler in flight when
-`Shutdown()` starts; the pool thread finishes its batch, gets the quit Message, ends; `Shutdown()` joins it and
-returns).
+/-! ## Progress: no deadlock, and `Shutdown()` terminates
 
-FULL STATEMENTS (not proved; the C++ harness checks them on every generated schedule — verdict `done`, "Shutdown()
-returned while pool thread … is still alive"):
+Two more hypotheses on the programs (both are what the API allows: `Shutdown()` is private and runs from the
+destructor / `FlushCachedObjects()`, after which the pool must not be used): `NoRegIfShutdown progs` — if some program
+calls `Shutdown`, no program registers a client (registering with a pool that is shut down would strand the client:
+nothing is dispatched any more, see `register_after_shutdown_strands`); and the pool has at least one thread
+(`1 ≤ maxT`; with `ThreadPool(0)` nothing is ever dispatched, see `pool_of_size_zero_strands`). -/
 
-   theorem shutdown_terminates (hd : Disciplined progs) (h1 : at most one `shutdown` op, no `reg` op in a program set with `shutdown`)
-       (h : Reachable maxT regs progs c) : ∀ t, (c.uth t).pc = .sdJoin b nA tot n T rest → from c some schedule reaches (c'.pth T).pc = .exited
-   theorem deadlock_free (hd, h1, 1 ≤ maxT) (h : Reachable maxT regs progs c) :
-       (∃ t < c.nU, (c.uth t).pc ≠ .done) → ∃ e c' o, step c e = some (c', o)
+/-- **Deadlock freedom.**  In every reachable configuration, as long as some user thread has not finished its program,
+some thread (a user thread or a pool thread) can take a step.  In particular a thread blocked in `UnregisterClient`
+or in the join of `Shutdown()` is never stranded: the wake-up it waits for is owed by a thread that can run. -/
+theorem deadlock_free {maxT regs progs c} (hd : Disciplined progs) (hn : NoRegIfShutdown progs) (hm : 1 ≤ maxT)
+    (h : Reachable maxT regs progs c) (hex : ∃ t, t < c.nU ∧ (c.uth t).pc ≠ .done) :
+    ∃ e c' o, machine.step c e = some (c', o) := by
+  obtain ⟨t, ht, hnd⟩ := hex
+  have hl := reach_invLive hd hn h
+  have hmx : 1 ≤ c.p.maxT := by rw [reach_maxT h]; exact hm
+  obtain ⟨e, r, hr⟩ := live_progress hl hmx t ht hnd
+  exact ⟨e, r.1, r.2, hr⟩
 
-Missing: a ranking argument for the pool threads (handler → finLock → fetch → quit), the invariant "every thread in
-`temp` of `ShutdownThreadsInTableWithoutDeadlocking` has the quit Message in its inbox or has ended", and "a waiter
-without a pending notification has an outstanding client whose serving thread can step". -/
+/-- non-vacuity of `deadlock_free`: a blocked unregistering thread, and the pool thread that owes it the wake-up can step -/
+example : ∃ c, Reachable 1 [0] [[.sub 0 1, .unreg 0]] c ∧ (c.uth 0).pc = .unregWait 0 ∧ (stepUser c 0).isNone ∧ (stepPool c 0).isSome :=
+  ⟨(machine.runSched (Cfg.init 1 [0] [[.sub 0 1, .unreg 0]]) [.run 0, .run 0, .run 1, .run 0, .run 0]).1,
+   machine.reach_runSched Machine.Reach.init _, by decide, by decide, by decide⟩
+
+/-- the hypothesis `1 ≤ maxT` is necessary: with `ThreadPool(0)` the Message stays pending and the unregistering thread
+waits for ever (user thread blocked, no pool thread exists) -/
+theorem pool_of_size_zero_strands : ∃ c, Reachable 0 [0] [[.sub 0 1, .unreg 0]] c ∧
+    (c.uth 0).pc = .unregWait 0 ∧ (stepUser c 0).isNone ∧ c.p.idc = 0 ∧ c.p.pend 0 = [1] :=
+  ⟨(machine.runSched (Cfg.init 0 [0] [[.sub 0 1, .unreg 0]]) [.run 0, .run 0, .run 0, .run 0]).1,
+   machine.reach_runSched Machine.Reach.init _, by decide, by decide, by decide, by decide⟩
+
+/-- the hypothesis `NoRegIfShutdown` is necessary: a client registered after `Shutdown()` gets its Message accepted but
+never handled, and its `SetThreadPool(NULL)` waits for ever (the only pool thread has ended) -/
+theorem register_after_shutdown_strands : ∃ c, Reachable 1 [] [[.shutdown, .reg 0, .sub 0 1, .unreg 0]] c ∧
+    (c.uth 0).pc = .unregWait 0 ∧ (stepUser c 0).isNone ∧ c.p.idc = 0 ∧ c.p.pend 0 = [1] ∧ c.p.shut = true :=
+  ⟨(machine.runTail 1 40 (Cfg.init 1 [] [[.shutdown, .reg 0, .sub 0 1, .unreg 0]])).1,
+   machine.reach_runTail 1 40 Machine.Reach.init, by decide, by decide, by decide, by decide, by decide⟩
+
+/-- **The shutdown phase has a ranking function.**  `rank` (defined in `Conc/ProofsTP7.lean`: what is left of the user
+programs and of the calls in progress — a `Shutdown` call counting 20 per pool thread still in the tables —, plus
+4 per Message in a pool thread's inbox, 2 per Message of its batch, plus its program-counter weight) becomes
+strictly smaller with EVERY step of EVERY thread once `_shuttingDown` is set; and `_shuttingDown` stays set. -/
+theorem shutdown_rank_decreases {maxT regs progs c c' e o} (hd : Disciplined progs) (hn : NoRegIfShutdown progs)
+    (h : Reachable maxT regs progs c) (hs : c.p.shut = true) (hst : machine.step c e = some (c', o)) :
+    rank c' < rank c ∧ c'.p.shut = true :=
+  rank_decreases (reach_invLive hd hn h).p hs hst
+
+/-- **`Shutdown()` terminates.**  From any reachable configuration in which `Shutdown()` has begun: (1) every run —
+whatever the scheduler does — has at most `rank c` steps, so there is no infinite run; (2) a run can stop only in a
+configuration where every user thread has finished its program — in particular the thread inside `Shutdown()` has
+returned from it (no deadlock on the way). -/
+theorem shutdown_terminates {maxT regs progs c} (hd : Disciplined progs) (hn : NoRegIfShutdown progs) (hm : 1 ≤ maxT)
+    (h : Reachable maxT regs progs c) (hs : c.p.shut = true) {n : Nat} {c' : Cfg} (hrun : Steps n c c') :
+    n ≤ rank c ∧ ((∀ e, step c' e = none) → ∀ t, t < c'.nU → (c'.uth t).pc = .done) := by
+  have hl := reach_invLive hd hn h
+  obtain ⟨b1, b2, b3, b4⟩ := steps_bounded hl hs hrun
+  refine ⟨by omega, fun hstuck t ht => ?_⟩
+  cases hpc : (c'.uth t).pc with
+  | done => rfl
+  | _ =>
+    have hmx : 1 ≤ c'.p.maxT := by rw [b4, reach_maxT h]; exact hm
+    obtain ⟨e, r, hr⟩ := live_progress b3 hmx t ht (by rw [hpc]; simp)
+    rw [hstuck e] at hr; cases hr
+
+/-- the join in `Shutdown()` returns only for a pool thread that has ended -/
+theorem shutdown_join_waits (c : Cfg) (t : Tid) {b nA tot n T rest r} (hpc : (c.uth t).pc = .sdJoin b nA tot n T rest)
+    (hs : stepUser c t = some r) : (c.pth T).pc = .exited := by
+  unfold stepUser at hs
+  simp only [hpc] at hs
+  split at hs
+  · assumption
+  · cases hs
+
+/-- non-vacuity: a complete shutdown run with a handler in flight when `Shutdown()` starts; the pool thread finishes its
+batch, gets the quit Message and ends, `Shutdown()` joins it and returns -/
 theorem shutdown_example : ∃ c, Reachable 1 [0] [[.sub 0 1], [.shutdown]] c ∧
     (c.uth 0).pc = .done ∧ (c.uth 1).pc = .done ∧ (c.pth 0).pc = .exited ∧ c.handled 0 = [1] :=
   ⟨(machine.runTail 3 40 (Cfg.init 1 [0] [[.sub 0 1], [.shutdown]])).1,
    machine.reach_runTail 3 40 Machine.Reach.init, by decide, by decide, by decide, by decide⟩
 
-/-- **No API step ever blocks on `_poolLock`** (partial deadlock freedom): a user thread that has not finished can
-always step unless it is inside the `Wait` of `UnregisterClient` without a notification, or inside the join of
-`Shutdown` with the joined pool thread still alive. -/
-theorem deadlock_free_partial (c : Cfg) (t : Tid) (hn : stepUser c t = none) :
+/-- non-vacuity of the ranking: in the middle of that run (shutdown begun, handler running) the rank is positive and the run is inside `Shutdown` -/
+example : ∃ c, Reachable 1 [0] [[.sub 0 1], [.shutdown]] c ∧ c.p.shut = true ∧ (c.pth 0).pc = .handler ∧ rank c = 31 :=
+  ⟨(machine.runSched (Cfg.init 1 [0] [[.sub 0 1], [.shutdown]]) [.run 0, .run 0, .run 2, .run 1, .run 1]).1,
+   machine.reach_runSched Machine.Reach.init _, by decide, by decide, by decide⟩
+
+/- STILL OPEN (full statement; checked on every generated schedule by the harness — oracle "Shutdown() returned while
+   pool thread … is still alive"):
+
+   theorem shutdown_returns_all_exited (hd : Disciplined progs) (hn : NoRegIfShutdown progs)
+       (h1 : ∀ t t', Op.shutdown ∈ progs.getD t [] → Op.shutdown ∈ progs.getD t' [] → t = t')     -- Shutdown is called by one thread only
+       (h : Reachable maxT regs progs c) (t) (tot) (hpc : (c.uth t).pc = .sdFinal tot) : ∀ T, T < c.p.idc → (c.pth T).pc = .exited
+
+   Proved towards it: `shutdown_join_waits` (each join returns only for an ended thread) and `thread_limit` (the tables
+   are duplicate-free and disjoint).  Missing: the cover invariant "every pool thread has ended, or is in one of the two
+   tables, or is in the list `Shutdown()` is joining" through `DispatchPendingMessagesUnsafe` and the three phases of
+   `ShutdownThreadsInTableWithoutDeadlocking`. -/
+
+/-- **No API step ever blocks on `_poolLock`**: a user thread that cannot step has finished, or is inside the `Wait` of
+`UnregisterClient` without a notification, or inside the join of `Shutdown` with the joined pool thread still alive.
+(All configurations; the case analysis behind `deadlock_free`.) -/
+theorem lock_steps_never_block (c : Cfg) (t : Tid) (hn : stepUser c t = none) :
     (c.uth t).pc = .done ∨ ((c.uth t).pc = .opStart ∧ (c.uth t).prog = []) ∨
     (∃ k, (c.uth t).pc = .unregWait k ∧ (c.uth t).notif = 0) ∨
-    (∃ b nA tot n T r, (c.uth t).pc = .sdJoin b nA tot n T r ∧ (c.pth T).pc ≠ .exited) := by
-  unfold stepUser at hn
-  simp only at hn
-  split at hn
-  · exact Or.inl (by assumption)
-  · rename_i hpc
-    split at hn
-    · rename_i hp; exact Or.inr (Or.inl ⟨hpc, hp⟩)
-    all_goals first | (split at hn <;> simp at hn) | simp at hn
-  all_goals first
-    | (simp at hn; done)
-    | (rename_i b nA tot n T r hpc; split at hn; (simp at hn); exact Or.inr (Or.inr (Or.inr ⟨b, nA, tot, n, T, r, hpc, by assumption⟩)))
-    | (rename_i k hpc; split at hn; (simp at hn); exact Or.inr (Or.inr (Or.inl ⟨k, hpc, by omega⟩)))
-    | (split at hn <;> simp at hn)
+    (∃ b nA tot n T r, (c.uth t).pc = .sdJoin b nA tot n T r ∧ (c.pth T).pc ≠ .exited) :=
+  stuck_cases c t hn
 
 /-- **The discipline is necessary** (model-level witness of the race that the `IThreadPoolClient` documentation rules
 out): if thread 1 submits to client 0 while thread 0 unregisters and re-registers it, two pool threads end up inside
